@@ -75,6 +75,15 @@ impl Monitor for C03Monitor {
                 self.ledger.cause_now = cause.clone();
                 let (i, c) = self.ledger.check(&obs);
                 r.count("ledger_classifications", c);
+                // "gone from the repository" is promised for after the
+                // owner's own next synchronisation, which may not have run
+                // yet at this instant (its parent may publish first); the
+                // CRL clause holds whenever the issuing key's publication
+                // point is valid, because manifest and CRL are published
+                // together
+                let i: Vec<Issue> = i.into_iter()
+                    .filter(|x| x.0.starts_with("superseded-not-on-crl"))
+                    .collect();
                 if !i.is_empty() { early = i; return false }
             }
             true
